@@ -32,6 +32,7 @@ type World struct {
 
 	dirSim       []Pub
 	MemTransform func(*memswarm.Message) bool
+	udpListen    string // listen address of baseUDP (default 127.0.0.1:0)
 	// EmptyAskHook, if set, receives ask requests with an empty payload (C15)
 	EmptyAskHook func(ep Endpoint, ch int)
 	ChanOpenOn   func(ci, node int) bool
